@@ -74,6 +74,7 @@ type listXML struct {
 }
 
 type obsT struct {
+	versions  []string // per listed version: hex(id):marker:latest
 	r         Resp
 	names     []string
 	contents  []string
@@ -108,6 +109,13 @@ func metaField(h http.Header) string {
 	return strings.Join(ps, ",")
 }
 
+func joinRaw(xs []string) string {
+	if len(xs) == 0 {
+		return "-"
+	}
+	return strings.Join(xs, ",")
+}
+
 func joinHex(xs []string) string {
 	if len(xs) == 0 {
 		return "-"
@@ -131,7 +139,7 @@ func (s *Sess) emitOpX(name string, args []string, o obsT, noteV bool) {
 		etag = r.Header.Get("ETag")
 	}
 	body := r.Body
-	if r.Status < 200 || r.Status > 299 || name == "list" || name == "lsb" || name == "mdel" || name == "copy" || name == "ver" || name == "init" || name == "done" || name == "lsp" || name == "lsu" {
+	if r.Status < 200 || r.Status > 299 || name == "list" || name == "lsb" || name == "mdel" || name == "copy" || name == "ver" || name == "init" || name == "done" || name == "lsp" || name == "lsu" || name == "lsv" {
 		body = nil
 	}
 	vid := r.Header.Get("x-amz-version-id")
@@ -145,7 +153,7 @@ func (s *Sess) emitOpX(name string, args []string, o obsT, noteV bool) {
 	}
 	fields = append(fields, "=>", strconv.Itoa(r.Status), hs(errCode(r.Body)), boolField(r.Panic != ""),
 		hx(body), hs(etag), hs(r.Header.Get("Content-Length")), hs(vid), hs(r.Header.Get("x-amz-delete-marker")),
-		metaField(r.Header), joinHex(o.names), contents, boolField(o.truncated), hs(o.next))
+		metaField(r.Header), joinHex(o.names), contents, boolField(o.truncated), hs(o.next), joinRaw(o.versions))
 	emit(fields...)
 	s.nops++
 	stat("op-" + name)
